@@ -1,7 +1,7 @@
 //! Shared plumbing of the libFuzzer targets for C22 ("malformed input produces a diagnostic,
 //! never a crash").  Every target runs `libwild` in-process (`--no-fork --threads=1`) inside
 //! `catch_unwind`.  A panic whose location/message matches an entry of `VERIF_KNOWN_PANICS`
-//! (newline-separated substrings, matched against "<file>:<message>") is tolerated and counted;
+//! (newline-separated substrings, matched against "<file>|<message>|line <n>") is tolerated and counted;
 //! any other panic aborts the process so that libFuzzer records a crash artifact.
 
 use std::panic::AssertUnwindSafe;
@@ -40,7 +40,7 @@ pub fn env() -> &'static Env {
                 String::new()
             };
             let line = info.location().map(|l| l.line()).unwrap_or(0);
-            *LAST_PANIC.lock().unwrap() = Some(format!("{loc}:{line}:{msg}"));
+            *LAST_PANIC.lock().unwrap() = Some(format!("{loc}|{msg}|line {line}"));
         }));
         let root = std::env::var("VERIF_FUZZ_SCRATCH").unwrap_or_else(|_| "/dev/shm".to_owned());
         let dir = PathBuf::from(root).join(format!("verif-fuzz-{}", std::process::id()));
